@@ -21,7 +21,7 @@ func checkC07(p *Prog, r *Report) {
 	r.Rule("R2", "every construction of a local feature inside the repository takes its id from NextFeatureId of the entity it is created for")
 	c07Ids(p, r)
 	r.Rule("R3", "on the local feature list, the look-up that decides an insertion and the insertion share one critical section; every insertion is decided by a scan; the scan compares type and role")
-	absenceThenInsert(p, ls, r, "R3", "EntityLocal.features", true, 2)
+	absenceThenInsert(p, ls, r, "R3", F("EntityLocal.features"), true, 2)
 	c07ScanContent(p, ls, r)
 	r.Rule("R4", "AddEntity/RemoveEntity notify the subscribers of node management exactly once, with the constant state added resp. removed, feature information attached iff added, after the entity list was updated")
 	c07Notify(p, ls, r)
@@ -35,19 +35,20 @@ func checkC07(p *Prog, r *Report) {
 func c07Generator(p *Prog, ls *Lockset, r *Report) {
 	ei := p.LookupIface("api", "EntityInterface")
 	n := 0
-	for _, a := range ls.Accesses["Entity.fIdGenerator"] {
+	for _, a := range ls.Accesses[F("Entity.fIdGenerator")] {
 		if a.Ctor || a.Write() {
 			continue
 		}
 		n++
 		key := "fn:" + FnName(originOf(a.Fn))
-		_, held := a.heldOnSameObject()["muxGenerator"]
+		// the generator field is read-only; its calls are serialised by a lock of the same entity object
+		held := len(a.heldOnSameObject()) > 0
 		inNext := originName(a.Fn) == "NextFeatureId" && a.Fn.Signature.Recv() != nil && ei != nil && implementsIface(a.Fn.Signature.Recv().Type(), ei)
 		r.Check("R1", key, held && inNext, p.InstrPos(a.Ins), fmt.Sprintf("generator used with locks %s (generator lock of the same entity held: %v, inside NextFeatureId: %v)", a.Locks, held, inNext))
 	}
 	r.Floor("R1", "uses of the id generator", n, 1)
 	// nobody writes the generator after construction
-	for _, a := range ls.Accesses["Entity.fIdGenerator"] {
+	for _, a := range ls.Accesses[F("Entity.fIdGenerator")] {
 		if !a.Ctor && a.Write() {
 			r.Fail("R1", "write:"+FnName(originOf(a.Fn)), p.InstrPos(a.Ins), "the id generator is replaced after construction")
 		}
@@ -96,7 +97,7 @@ func c07Ids(p *Prog, r *Report) {
 // c07ScanContent: the branch conditions deciding an insertion into the feature
 // list compare both Type() and Role() of the existing element.
 func c07ScanContent(p *Prog, ls *Lockset, r *Report) {
-	ff := ls.Facts("EntityLocal.features")
+	ff := ls.Facts(F("EntityLocal.features"))
 	for _, a := range ff.insAcc {
 		fn := a.Fn
 		names := map[string]bool{}
@@ -180,7 +181,7 @@ func c07Notify(p *Prog, ls *Lockset, r *Report) {
 		}
 		// the entity list is updated before the notification
 		var lastStore ssa.Instruction
-		for _, a := range ls.accessesIn("DeviceLocal.entities", fn) {
+		for _, a := range ls.accessesIn(F("DeviceLocal.entities"), fn) {
 			if a.Kind == "W" {
 				lastStore = a.Ins
 			}
